@@ -21,6 +21,15 @@ ENV_ASSUMPTIONS = [
 def recv_spec(name, tags, **P):
     P = dict(P)
     P['tags'] = list(tags)
+    if 'family' in P:
+        F = P['family']
+        P.setdefault('N', 0)
+        return Spec(name, 'checks.recv', 'run_recv', P,
+                    what='fragmentation family: a %s message of %d symbolic payload bytes in every split into <=%d '
+                         'fragments (empty ones included), optionally one empty control frame between two fragments '
+                         '(template index is a solver variable), cuts=%s; obligations %s'
+                         % ({1: 'text', 2: 'binary'}[F.get('opcode', 1)], F['L'], F.get('max_frags', 3),
+                            P.get('cuts', 'one'), ','.join(tags)))
     return Spec(name, 'checks.recv', 'run_recv', P,
                 what='%d symbolic stream bytes after a valid handshake (cuts=%s), passive application; '
                      'obligations tagged %s vs RFC 6455 reference receiver' % (P['N'], P.get('cuts', 'one'), ','.join(tags)))
@@ -57,4 +66,24 @@ def c14(tier):
     return run_property('C14', tier, specs, 'model_checking', 'ping/pong', ENV_ASSUMPTIONS, RECV_FUNCS)
 
 
-PROPS = {'C01': c01, 'C04': c04, 'C14': c14}
+def c05(tier):
+    from checks import utf8
+    tags = ['C05']
+    if tier == 'quick':
+        specs = [recv_spec('recv-text-N6-bytewise', tags, N=6, first_opcodes=[1], no_rsv=True, cuts='bytewise'),
+                 recv_spec('frag-text-L3', tags + ['C01'], family=dict(opcode=1, L=3, max_frags=3), cuts='bytewise'),
+                 recv_spec('recv-close-N6', tags + ['C01', 'C04'], N=6, first_opcodes=[8], no_rsv=True)]
+    else:
+        specs = [recv_spec('recv-text-N8-bytewise', tags, N=8, first_opcodes=[1], no_rsv=True, cuts='bytewise'),
+                 recv_spec('frag-text-L4', tags + ['C01'], family=dict(opcode=1, L=4, max_frags=4), cuts='bytewise'),
+                 recv_spec('frag-text-L3-tail2', tags + ['C01'], family=dict(opcode=1, L=3, max_frags=3, tail_sym=2), cuts='bytewise'),
+                 recv_spec('recv-text-N9-nonfin-bytewise', tags, N=9, first_opcodes=[1], first_nonfin=True, no_rsv=True, cuts='bytewise'),
+                 recv_spec('recv-text-N6-allcuts', tags, N=6, first_opcodes=[1], no_rsv=True, cuts='sym'),
+                 recv_spec('recv-close-N8', tags + ['C01', 'C04'], N=8, first_opcodes=[8], no_rsv=True)]
+    return run_property('C05', tier, specs, 'model_checking', 'strict UTF-8', ENV_ASSUMPTIONS + [
+        'layer 1 (bisimulation of the DFA with the RFC 3629 grammar) is unbounded in the input length; layer 2 (pipeline) is bounded as stated',
+        'wsaccel C validator not installed: the pure-Python fallback is the code under test'],
+        RECV_FUNCS, pre=utf8.closure)
+
+
+PROPS = {'C05': c05, 'C01': c01, 'C04': c04, 'C14': c14}
